@@ -515,6 +515,7 @@ type region struct {
 	compileVar types.Object
 	problems   []string
 	full       []ast.Stmt // Compile from its first statement to the end of the emission region
+	tail       []ast.Stmt // what follows the emission: -strict handling, formatting, writing
 }
 
 func findRegion(r *Repo) *region {
@@ -537,25 +538,56 @@ func findRegion(r *Repo) *region {
 				}
 			}
 		}
-		if is, ok := st.(*ast.IfStmt); ok && start >= 0 && end < 0 {
-			mentions := false
-			ast.Inspect(is.Cond, func(n ast.Node) bool {
-				if se, ok := n.(*ast.SelectorExpr); ok && se.Sel.Name == "Strict" {
-					mentions = true
+	}
+	if start < 0 {
+		rg.problems = append(rg.problems, "emission region (from `var buffer bytes.Buffer` on) not found in Compile")
+		return rg
+	}
+	// the region ends behind the last top-level statement that uses the print
+	// helper (the closure that Fprintf's into the buffer), directly or through
+	// the emitter closures; what follows (the -strict handling, formatting and
+	// writing) is the tail
+	var printObj types.Object
+	for _, st := range fd.Body.List[start:] {
+		as, ok := st.(*ast.AssignStmt)
+		if !ok || len(as.Lhs) != 1 || len(as.Rhs) != 1 {
+			continue
+		}
+		lit, ok := as.Rhs[0].(*ast.FuncLit)
+		if !ok {
+			continue
+		}
+		if id, _ := as.Lhs[0].(*ast.Ident); id != nil && printObj == nil {
+			if sig, ok := info.Types[lit].Type.(*types.Signature); ok && sigString(sig) == "(string, ...any)" && callsFprintf(lit, info) {
+				printObj = info.Defs[id]
+				if printObj == nil {
+					printObj = info.Uses[id]
 				}
-				return true
-			})
-			if mentions {
-				end = i
 			}
 		}
 	}
-	if start < 0 || end < 0 {
-		rg.problems = append(rg.problems, "emission region (from `var buffer bytes.Buffer` to the -strict handling) not found in Compile")
+	for i, st := range fd.Body.List {
+		if i < start || printObj == nil {
+			continue
+		}
+		uses := false
+		ast.Inspect(st, func(n ast.Node) bool {
+			if id, ok := n.(*ast.Ident); ok && info.Uses[id] == printObj {
+				uses = true
+			}
+			return true
+		})
+		if uses {
+			end = i + 1
+		}
+	}
+	if end < 0 {
+		rg.problems = append(rg.problems, "emission region: no statement uses the print helper that writes to the output buffer")
 		return rg
 	}
 	rg.stmts = fd.Body.List[start:end]
 	rg.full = fd.Body.List[:end]
+	rg.tail = fd.Body.List[end:]
 	// identify closures by role
 	for _, st := range rg.stmts {
 		as, ok := st.(*ast.AssignStmt)
